@@ -49,6 +49,14 @@ Theorem C02S_rh_never_out_of_fuel : forall (H : N -> N) (c : nat) (es : list N),
 Proof. exact rh_never_out_of_fuel. Qed.
 Print Assumptions C02S_rh_never_out_of_fuel.
 
+(* ... and the psl guard itself is vacuous for histories with at most 255 distinct elements
+   (a probe distance is smaller than the number of stored elements): every call returns. *)
+Theorem C02S_rh_total_small : forall (H : N -> N) (c : nat) (es : list N),
+  1 <= c -> length (nodup N.eq_dec es) <= 255 ->
+  exists ids t', run true H (new_table c) es = Ok (ids, t').
+Proof. exact rh_total_small. Qed.
+Print Assumptions C02S_rh_total_small.
+
 (* arena_append_only: split any history in two; every id handed out in the first part denotes
    its element when it is handed out (arena of the intermediate table t1) and still denotes it
    in the arena of every later table t', which extends t1's arena. *)
